@@ -24,7 +24,8 @@ pub struct FnSpec {
     pub loop_start: BTreeMap<usize, String>,
     pub loop_end: BTreeMap<usize, String>,
     pub outline_exprs: Vec<(String, String)>,
-    pub dead_conds: Vec<(String, String)>, // (feature or -, normalised `if` condition whose then-branch is proved unreachable)
+    pub dead_conds: Vec<(String, String)>,
+    pub dead_else: Vec<(String, String)>, // (feature or -, normalised `if` condition whose then-branch is proved unreachable)
     pub no_autopost: bool,
     pub cfg: Option<String>,
     pub props: Vec<String>,
@@ -229,6 +230,7 @@ pub fn parse_unit(text: &str) -> Unit {
             "then-start" => { u.fns.get_mut(cur_fn.as_ref().unwrap()).unwrap().then_start.push((norm(rest), String::new())); section = Some(line.to_string()); }
             "after-let" => { u.fns.get_mut(cur_fn.as_ref().unwrap()).unwrap().after_let.push((norm(rest), String::new())); section = Some(line.to_string()); }
             "outline-expr" => { let (a, b) = rest.split_once("=>").expect("outline-expr A => B"); u.fns.get_mut(cur_fn.as_ref().unwrap()).unwrap().outline_exprs.push((norm(a), b.trim().to_string())); }
+            "dead-else" => { let (f, c) = rest.trim().split_once(' ').unwrap(); u.fns.get_mut(cur_fn.as_ref().unwrap()).unwrap().dead_else.push((f.to_string(), norm(c))); }
             "dead-branch" => { let (f, c) = rest.trim().split_once(' ').unwrap(); u.fns.get_mut(cur_fn.as_ref().unwrap()).unwrap().dead_conds.push((f.to_string(), norm(c))); }
             "loop-start" | "loop-end" => { section = Some(line.trim().to_string()); }
             "requires" | "ensures" | "decreases" | "start" | "return" | "attrs" | "loop" => {
